@@ -450,3 +450,202 @@ Proof.
   unfold expected. apply (spec_nolimit _ max); [reflexivity|].
   intros n. specialize (Hno n). rewrite any_sched_proof in Hno. exact Hno.
 Qed.
+
+(* ---------- JSON variant, relative to the scanner oracle ---------- *)
+Lemma app_eq_prefix {A} (a b c e : list A) :
+  a ++ b = c ++ e -> (length a <= length c)%nat -> a = firstn (length a) c.
+Proof.
+  revert c; induction a as [|x a IH]; intros c H Hl; [reflexivity|].
+  destruct c as [|y c]; [cbn in Hl; lia|]. cbn in H. inversion H; subst.
+  cbn. f_equal. apply IH; [assumption|cbn in Hl; lia].
+Qed.
+
+Lemma app_eq_split {A} (a b c e : list A) :
+  a ++ b = c ++ e -> (length c <= length a)%nat -> exists r, a = c ++ r /\ e = r ++ b.
+Proof.
+  revert a; induction c as [|y c IH]; intros a H Hl.
+  - exists a. split; [reflexivity|]. symmetry; exact H.
+  - destruct a as [|x a]; [cbn in Hl; lia|]. cbn in H. inversion H; subst.
+    destruct (IH a H2 ltac:(cbn in Hl; lia)) as (r & -> & ->). exists r. split; reflexivity.
+Qed.
+
+Section JsonProofs.
+  Variable scan : bytes -> scan_res.
+  Hypothesis Hskip : scanner_skips_newline scan.
+
+  Definition nls (l : bytes) : Prop := Forall (eq 10) l.
+
+  Lemma scan_nls l x : nls l -> scan (l ++ x) = scan x.
+  Proof.
+    induction 1 as [|c l <- _ IH]; [reflexivity|]. cbn. destruct Hskip as [_ H]. now rewrite H.
+  Qed.
+
+  Lemma nls_firstn k l : nls l -> nls (firstn k l).
+  Proof. intros H. revert k; induction H as [|c l' Hc Hl' IH]; intros [|k]; cbn; try constructor; auto. apply IH. Qed.
+
+  Lemma nls_non_space l : nls l -> non_space l = false.
+  Proof. induction 1 as [|c l <- _ IH]; [reflexivity|]. cbn. exact IH. Qed.
+
+  Lemma src_read_big d sch eg t :
+    d <> [] ->
+    (exists m, (1 <= m <= length d)%nat /\ (sch = [] -> m = length d \/ (0 < length (skipn m d))%nat) /\
+      src_read big_buf (mk_src d sch eg t) =
+      RData (firstn m d)
+            (match skipn m d with [] => if eg then tail_err t else None | _ => None end)
+            (mk_src (skipn m d) (tl sch) eg t)) \/
+    (exists m, m = 0%nat /\ sch <> [] /\
+      src_read big_buf (mk_src d sch eg t) = RData [] None (mk_src d (tl sch) eg t)).
+  Proof.
+    intros Hd. unfold src_read. cbn [s_data s_sched s_eager s_tail]. change (big_buf =? 0) with false. cbv iota.
+    destruct d as [|x d']; [congruence|]. set (d := x :: d') in *.
+    assert (Hd1 : (1 <= length d)%nat) by (subst d; cbn [length]; lia).
+    rewrite cap_spec.
+    set (k := match sch with [] => length d | k :: _ => Nat.min k (length d) end).
+    set (m := Nat.min (N.to_nat big_buf) k).
+    assert (Hbig : (1 <= N.to_nat big_buf)%nat) by (unfold big_buf; lia).
+    destruct (Nat.eq_dec m 0) as [E|E].
+    - right. exists 0%nat. split; [reflexivity|]. split.
+      + intros ->. subst m k. lia.
+      + rewrite E. reflexivity.
+    - left. exists m. split; [subst m k; destruct sch; lia|]. split; [|reflexivity].
+      intros ->. subst m k. rewrite skipn_length. lia.
+  Qed.
+
+  (* reading one value v that is (after newlines) at the front of buffer + data *)
+  Lemma json_loop_value v (Hv : scanner_ok scan v) eg t :
+    forall fuel buf d sch lasterr l more,
+    nls l -> buf ++ d = (l ++ v) ++ more ->
+    (length sch + length d + 1 < fuel)%nat ->
+    (lasterr = None \/ d = []) ->
+    exists sch' rest d', json_loop scan fuel buf (mk_src d sch eg t) lasterr = JVal v rest (mk_src d' sch' eg t)
+                         /\ rest ++ d' = more.
+  Proof.
+    destruct Hv as [Hc Hp].
+    induction fuel as [|f IH]; intros buf d sch lasterr l more Hl E Hf Hle; [lia|].
+    cbn [json_loop].
+    destruct (Nat.le_gt_cases (length (l ++ v)) (length buf)) as [Hlen|Hlen].
+    - destruct (app_eq_split _ _ _ _ E Hlen) as (r & -> & ->).
+      rewrite <- !app_assoc, scan_nls by exact Hl. rewrite Hc. exists sch, r, d. split; reflexivity.
+    - assert (Hb : buf = firstn (length buf) (l ++ v)) by (eapply app_eq_prefix; [exact E|lia]).
+      assert (Hs : scan buf = SNeedMore).
+      { rewrite Hb, firstn_app, scan_nls by (apply nls_firstn; exact Hl).
+        rewrite app_length in Hlen.
+        destruct (Nat.le_gt_cases (length buf) (length l)) as [H1|H1].
+        - replace (length buf - length l)%nat with 0%nat by lia. cbn. apply Hskip.
+        - apply Hp. lia. }
+      rewrite Hs.
+      assert (Hd : d <> []).
+      { intros ->. rewrite app_nil_r in E. apply (f_equal (@length N)) in E. rewrite app_length in E. lia. }
+      destruct Hle as [->|Hle]; [|congruence].
+      destruct (src_read_big d sch eg t Hd) as [(m & Hm & Hm0 & ->)|(m & _ & Hsch & ->)].
+      + apply (IH (buf ++ firstn m d) (skipn m d) (tl sch) _ l more Hl).
+        * rewrite <- app_assoc, firstn_skipn. exact E.
+        * rewrite skipn_length. destruct sch; cbn [length tl] in *; [|lia].
+          destruct (Hm0 eq_refl); [lia|]. rewrite skipn_length in *. lia.
+        * destruct (skipn m d); [right; reflexivity|left; reflexivity].
+      + rewrite app_nil_r. apply (IH buf d (tl sch) None l more Hl E); [|left; reflexivity].
+        destruct sch; [congruence|]. cbn [length tl] in *. lia.
+  Qed.
+
+  (* nothing but newlines left: a clean end *)
+  Lemma json_loop_end eg :
+    forall fuel buf d sch lasterr,
+    nls (buf ++ d) -> (length sch + length d + 1 < fuel)%nat ->
+    (lasterr = None \/ (lasterr = Some EEOF /\ d = [])) ->
+    exists s', json_loop scan fuel buf (mk_src d sch eg TEOF) lasterr = JErr MEOF s'.
+  Proof.
+    induction fuel as [|f IH]; intros buf d sch lasterr Hn Hf Hle; [lia|].
+    cbn [json_loop].
+    assert (Hb : nls buf) by (apply Forall_app in Hn; tauto).
+    assert (Hs : scan buf = SNeedMore).
+    { rewrite <- (app_nil_r buf), scan_nls by exact Hb. apply Hskip. }
+    rewrite Hs. destruct Hle as [->|[-> ->]].
+    - destruct d as [|x d'].
+      + unfold src_read. cbn. rewrite app_nil_r.
+        destruct f as [|f']; [lia|]. cbn [json_loop]. rewrite Hs, nls_non_space by exact Hb. eauto.
+      + destruct (src_read_big (x :: d') sch eg TEOF ltac:(discriminate)) as [(m & Hm & Hm0 & ->)|(m & _ & Hsch & ->)].
+        * apply IH.
+          -- rewrite <- app_assoc, firstn_skipn. exact Hn.
+          -- rewrite skipn_length. destruct sch; cbn [length tl] in *; [|lia].
+             destruct (Hm0 eq_refl); [lia|]. rewrite skipn_length in *. lia.
+          -- destruct (skipn m (x :: d')); [|left; reflexivity].
+             destruct eg; [right; split; reflexivity|left; reflexivity].
+        * rewrite app_nil_r. apply IH; [exact Hn| |left; reflexivity].
+          destruct sch; [congruence|]. cbn [length tl] in *. lia.
+    - rewrite nls_non_space by exact Hb. eauto.
+  Qed.
+
+  Lemma json_all_values eg : forall vs fuel buf d sch l,
+    Forall (scanner_ok scan) vs -> nls l -> buf ++ d = l ++ json_write_all vs ->
+    (length vs < fuel)%nat ->
+    json_all_loop scan fuel buf (mk_src d sch eg TEOF) = (vs, JFErr MEOF).
+  Proof.
+    induction vs as [|v vs IH]; intros fuel buf d sch l HF Hl E Hf; (destruct fuel as [|f]; [lia|]); cbn [json_all_loop]; unfold json_next.
+    - cbn in E. rewrite app_nil_r in E.
+      destruct (json_loop_end eg (S (S (read_fuel (mk_src d sch eg TEOF)))) buf d sch None) as [s' ->];
+        [rewrite E; exact Hl|unfold read_fuel; cbn; lia|left; reflexivity|reflexivity].
+    - inversion HF as [|? ? Hv Hvs]; subst.
+      unfold json_write_all in E. cbn [map concat] in E. unfold json_write at 1 in E.
+      fold (json_write_all vs) in E. rewrite <- app_assoc, app_assoc in E.
+      destruct (json_loop_value v Hv eg TEOF (S (S (read_fuel (mk_src d sch eg TEOF)))) buf d sch None l _ Hl E)
+        as (sch' & rest & d' & -> & E'); [unfold read_fuel; cbn; lia|left; reflexivity|].
+      rewrite (IH f rest d' sch' [10] Hvs); [reflexivity|constructor; [reflexivity|constructor]|exact E'|cbn [length] in Hf; lia].
+  Qed.
+
+  Lemma json_write_all_length vs : (length vs <= length (json_write_all vs))%nat.
+  Proof.
+    induction vs as [|v vs IH]; [cbn; lia|].
+    unfold json_write_all in *. cbn [map concat]. unfold json_write at 1. rewrite !app_length. cbn [length]. lia.
+  Qed.
+
+  Lemma json_roundtrip_any_sched_proof : forall vs sch eg,
+    Forall (scanner_ok scan) vs ->
+    json_all scan (mk_src (json_write_all vs) sch eg TEOF) = (vs, JFErr MEOF).
+  Proof.
+    intros vs sch eg HF. unfold json_all. cbn [s_data].
+    apply (json_all_values eg vs _ [] _ sch []); [exact HF|constructor|reflexivity|].
+    pose proof (json_write_all_length vs). lia.
+  Qed.
+End JsonProofs.
+
+(* ---------- a clean end is reported only at a frame boundary (any byte string) ---------- *)
+Lemma take_done want d g r :
+  take want d = TkDone g r -> d = g ++ r /\ N.of_nat (length g) = want.
+Proof.
+  unfold take. destruct (N.leb_spec want (N.of_nat (length d))) as [H|H]; [|discriminate].
+  intros E; inversion E; subst. split; [symmetry; apply firstn_skipn|].
+  rewrite firstn_length. lia.
+Qed.
+
+Lemma clean_end_only_at_boundary_spec max : forall fuel d ms n,
+  Forall (fun b => b < 256) d ->
+  spec_read fuel max TEOF d = (ms, FErr MEOF n) -> d = write_all ms /\ n = 0%nat.
+Proof.
+  induction fuel as [|f IH]; intros d ms n Hb E; [discriminate|].
+  cbn [spec_read] in E. destruct (take 4 d) as [p r|k] eqn:Ht.
+  - cbv zeta in E. destruct (over max (be_decode p 0)); [discriminate|].
+    apply take_done in Ht as [-> Hp].
+    destruct (take (be_decode p 0) r) as [m r'|k] eqn:Ht2; [|discriminate].
+    apply take_done in Ht2 as [-> Hm].
+    destruct (spec_read f max TEOF r') as [ms' e] eqn:E'. inversion E; subst.
+    apply Forall_app in Hb as [Hbp Hb]. apply Forall_app in Hb as [_ Hb].
+    destruct (IH r' ms' n Hb E') as [-> ->]. split; [|reflexivity].
+    unfold write_all. cbn [map concat]. unfold write_msg at 2. rewrite <- app_assoc. f_equal.
+    rewrite Hm.
+    destruct p as [|a [|b [|c [|e [|? ?]]]]]; cbn [length] in Hp; try lia.
+    inversion Hbp as [|? ? Ha Q1]; inversion Q1 as [|? ? Hb' Q2]; inversion Q2 as [|? ? Hc Q3];
+      inversion Q3 as [|? ? He _]; subst.
+    symmetry. apply be32_be_decode; assumption.
+  - unfold short_outcome in E. cbn [orb] in E.
+    unfold take in Ht. destruct (4 <=? N.of_nat (length d)); [discriminate|]. inversion Ht; subst.
+    destruct (length d) eqn:Hl; [|discriminate]. inversion E; subst.
+    destruct d; [split; reflexivity|discriminate].
+Qed.
+
+Lemma clean_end_is_eof_proof : forall max d sch eg ms n,
+  Forall (fun b => b < 256) d ->
+  read_all max (mk_src d sch eg TEOF) = (ms, FErr MEOF n) -> d = write_all ms /\ n = 0%nat.
+Proof.
+  intros max d sch eg ms n Hb E. rewrite any_sched_proof in E.
+  eapply clean_end_only_at_boundary_spec; eassumption.
+Qed.
